@@ -445,3 +445,64 @@ class UnpackInfoWrite(Contract):
             "archiveinfo:UnpackInfo.write#loop1": LoopSpec("for-folder-sizes", noinv, target="folder in self.folders", asserts=sizes_of_folder),
             "archiveinfo:UnpackInfo.write#loop2": LoopSpec("for-s", noinv, target="s in folder.unpacksizes", asserts=one_size),
         }
+
+
+# ================================================================================================ AESCompressor.__init__
+@contract
+class AESCompressorInit(Contract):
+    """every encrypting coder draws a FRESH 16-byte IV from the system randomness while it is being constructed, uses
+    exactly that IV for its cipher and keeps it for the coder properties; the key is derived from the caller's password
+    with the cycles / salt that the properties will announce"""
+
+    target = "py7zr.compressor:AESCompressor.__init__"
+    props = ("C11", "C07")
+    abstract = True
+    bytes_functions = ("get_random_bytes",)
+    pure = ("encode", "get_default_blocksize")
+    noraise = ("encode", "get_default_blocksize", "Buffer", "get_random_bytes")
+    frame_preserving = ("encode", "get_default_blocksize", "Buffer", "calculate_key", "_calculate_key3", "_calculate_key2", "new", "get_random_bytes")
+    assumptions = ("Cryptodome.Random.get_random_bytes(n) returns n fresh random bytes (freshness itself is an assumption about the OS); AES.new / Buffer construct objects without side effects",)
+
+    def setup(self, c):
+        bs = c.choice(2)
+        return {"self_": c.opq("self"), "password": c.opq("password"), "blocksize": None if bs == 0 else c.int("blocksize")}
+
+    def raises(self):
+        return [RaiseSpec("Exception")]
+
+    def hooks(self):
+        def on_rand(c, ev):
+            c.assume(L(ev.result) == (ev.args[0] if ev.args and isinstance(ev.args[0], int) else 16))
+
+        return {("call", "get_random_bytes"): [on_rand]}
+
+    def ensures(self, c, old, result, **b):
+        eng = c.eng
+        if eng.ctx_mode == "assume":
+            return []
+        me = b["self_"]
+        rnd = [e for e in eng.trace if e.kind == "call" and e.name.endswith("get_random_bytes")]
+        new = [e for e in eng.trace if e.kind == "call" and e.name.split(".")[-1] == "new"]
+        kdf = [e for e in eng.trace if e.kind == "call" and "calculate_key" in e.name]
+        sets = {}
+        for e in eng.trace:
+            if e.kind == "setattr" and e.recv is me:
+                sets[e.name] = e.args[0]
+        out = [("iv-drawn-during-construction", bool(len(rnd) == 1 and rnd[0].args and rnd[0].args[0] == 16))]
+        if len(rnd) == 1 and new:
+            iv = new[-1].args[2] if len(new[-1].args) > 2 else None
+            kept = sets.get("iv")
+            # abstract mode does not interpret bytes concatenation on attributes of the opaque `self` (the zero padding
+            # `self.iv += bytes(16 - len(self.iv))`): the clauses are taint-style - the value handed to the cipher and the
+            # value kept for the properties are the SAME term and that term is built from the fresh random bytes
+            sym = str(rnd[0].result.t)
+            out.append(("cipher-iv-is-built-from-the-fresh-bytes", bool(iv is not None and V.is_sym(iv) and sym in str(iv.t))))
+            out.append(("properties-will-announce-the-cipher's-iv", eq(kept, iv) if kept is not None and iv is not None and V.is_sym(kept) and V.is_sym(iv) else False))
+        else:
+            out.append(("cipher-iv-is-built-from-the-fresh-bytes", False))
+        if kdf and new:
+            out.append(("cipher-key-is-derived-from-the-password", bool(new[-1].args[0] is kdf[-1].result)))
+            out.append(("kdf-parameters-are-the-announced-ones", And(eq(kdf[-1].args[1], sets.get("cycles")), eq(kdf[-1].args[2], sets.get("salt"))) if "cycles" in sets and "salt" in sets else False))
+        else:
+            out.append(("cipher-key-is-derived-from-the-password", False))
+        return out
